@@ -76,7 +76,9 @@ func (r *Executor) Do(release *v1beta1.BatchRelease) (reconcile.Result, *v1beta1
 	newStatus := getInitializedStatus(&release.Status)
 	workloadController, err := r.getReleaseController(release, newStatus)
 	if err != nil || workloadController == nil {
-		return reconcile.Result{}, nil, nil
+		// nothing can be executed for this workload (the event has been recorded); hand back the
+		// status built so far: the caller records it and must not be given a nil status
+		return reconcile.Result{}, newStatus, nil
 	}
 
 	stop, result, err := r.syncStatusBeforeExecuting(release, newStatus, workloadController)
